@@ -39,9 +39,11 @@ class ListenerPool:
         if self.flags.unix_socket_path:
             self.add(UnixSocketListener)
         hostnames = {self.flags.hostname, *self.flags.hostnames}
-        ports = list(self.flags.ports)
+        # Primary port goes first, Proxy.setup reads it back from pool[0]
+        ports = []
         if not self.flags.unix_socket_path:
             ports.append(self.flags.port)
+        ports.extend(self.flags.ports)
         for hostname, port in itertools.product(hostnames, ports):
             self.add(TcpSocketListener, hostname=hostname, port=port)
 
